@@ -10,7 +10,8 @@ PROP = {
             "silence: a real RTU client (rtuovertcp, VerifNewClientOnConn) on a scripted connection with real deadlines runs 4-6 "
             "back-to-back ReadRegisters at 1200/9600/19200/115200 bps (thorough: 8 rates x 6 repetitions) against a fake device whose "
             "replies come late (client already blocked in Read), early (queued before the client reads) or mixed; the gap between "
-            "the instant just before reply k is made available and the arrival of request k+1 must be >= t35(rate).",
+            "the instant just before reply k is made available and the arrival of request k+1 must be >= t35(rate)."
+            " Scenario silencewindow: after a complete reply the caller busy-waits 80..97 % of t3.5 (counted from the client's last read of reply bytes) and issues the next request; the request must still not reach the line before t3.5.",
     "assumptions": [
         "rates are 1..10^7 bps (rate 0 divides by zero in serialCharTime; uint rates above 2^63 do not fit time.Duration)",
         "the clock is monotone and time.Sleep(d) returns after at least d (Go runtime monotonic clock)",
